@@ -41,7 +41,8 @@ fn main() {
                 if m.current_state() != b.current_state() || m.is_ended() != b.is_ended() || m.current_values().bits() != b.current_values().bits() || m.verif_snapshot() != b.verif_snapshot() {
                     t.miss(ctx("twin", k + 1, json!({"macro": m.current_values().bits(), "builder": b.current_values().bits()}))); break;
                 }
-                // macro == the specification's reading of the block
+                // macro == the specification's reading of the block (only inside the model's domain)
+                if !line["indomain"].as_bool().unwrap_or(true) { continue; }
                 if st_no(m.current_state()) != ob["st"].as_i64().unwrap() || m.is_ended() != ob["ended"].as_bool().unwrap() {
                     t.miss(ctx("spec-state", k + 1, json!({"got": [st_no(m.current_state()), m.is_ended() as i64], "expected": [ob["st"], ob["ended"]]}))); break;
                 }
